@@ -59,6 +59,7 @@ func checkC13(r *Run) propMeta {
 	checkWrapper(r, p, "threadSafeDuplex", "Duplex", "ThreadSafeDuplex")
 	checkWrapper(r, p, "threadSafeSimplex", "Simplex", "ThreadSafeSimplex")
 	checkValueReceiverWrites(r, p)
+	r.Floor("C13-R6-operand-under-lock", 4)
 	r.Floor("C13-R1-self-iteration", 4)
 	r.Floor("C13-R2-native-op", 16)
 	r.Floor("C13-R3-wrapper", 15)
@@ -431,6 +432,31 @@ func checkWrapper(r *Run, p *packages.Package, tname, ifaceName, ctorName string
 		}
 		body := fd.Body.List
 		why := ""
+		// optional prologue, before the lock is taken: `<local> := <package function>(<parameter>)` — the operand helper
+		prologue := map[types.Object]types.Object{} // local -> the parameter it was made from
+		var helpers []*types.Func
+		for len(body) > 3 {
+			as, ok := body[0].(*ast.AssignStmt)
+			if !ok || as.Tok != token.DEFINE || len(as.Lhs) != 1 || len(as.Rhs) != 1 {
+				break
+			}
+			call, ok := as.Rhs[0].(*ast.CallExpr)
+			if !ok || len(call.Args) != 1 {
+				break
+			}
+			fn := calleeOf(info, call)
+			argID, isID := ast.Unparen(call.Args[0]).(*ast.Ident)
+			lhsID, isLhs := as.Lhs[0].(*ast.Ident)
+			if fn == nil || fn.Type().(*types.Signature).Recv() != nil || !isID || !isLhs {
+				break
+			}
+			if _, isParam := info.Uses[argID].(*types.Var); !isParam {
+				break
+			}
+			prologue[info.Defs[lhsID]] = info.Uses[argID]
+			helpers = append(helpers, fn)
+			body = body[1:]
+		}
 		if len(body) != 3 {
 			why = fmt.Sprintf("body has %d statements, expected lock; defer unlock; delegate", len(body))
 		} else {
@@ -497,8 +523,21 @@ func checkWrapper(r *Run, p *packages.Package, tname, ifaceName, ctorName string
 					} else {
 						for k, a := range inner.Args {
 							id, ok := ast.Unparen(a).(*ast.Ident)
-							if !ok || info.Uses[id] != params[k] {
+							if !ok || (info.Uses[id] != params[k] && prologue[info.Uses[id]] != params[k]) {
 								why = "delegate is not called with the method's parameters in order"
+								continue
+							}
+							// R6: a set operand (an interface value that may be another wrapper, or this one) is not read under
+							// the receiver's lock unless it went through a helper that tells wrappers apart
+							if _, isTP := types.Unalias(params[k].Type()).(*types.TypeParam); !isTP && types.IsInterface(params[k].Type()) && tname == "threadSafeDuplex" {
+								c6 := tname + "." + im.Name() + ":" + params[k].Name()
+								if prologue[info.Uses[id]] != params[k] {
+									r.Fail("C13-R6-operand-under-lock", c6, a.Pos(), "%s.%s hands the operand %s to the wrapped provider while holding its own lock: if the operand is a thread-safe provider it is read through its lock from inside this critical section, which never returns when the operand is the receiver itself (w.%s(w)) and deadlocks two goroutines that combine the same pair in opposite order", tname, im.Name(), params[k].Name(), im.Name())
+								} else if !helperUnwraps(p, helpers, tname) {
+									r.Fail("C13-R6-operand-under-lock", c6, a.Pos(), "the operand helper never tests whether the operand is a %s", tname)
+								} else {
+									r.Pass("C13-R6-operand-under-lock", c6, a.Pos(), "the operand is replaced, before the lock is taken, by the result of a helper that recognises thread-safe operands")
+								}
 							}
 						}
 					}
@@ -534,6 +573,10 @@ func checkWrapper(r *Run, p *packages.Package, tname, ifaceName, ctorName string
 			ast.Inspect(fd.Body, func(n ast.Node) bool {
 				if sel, ok := n.(*ast.SelectorExpr); ok {
 					if s := info.Selections[sel]; s != nil && originVar(s.Obj()) == provider {
+						if fd.Recv == nil && lockedOnSameBase(info, fd, sel, lock) {
+							r.Pass("C13-R3-wrapper", tname+"."+provider.Name()+"@"+funcDeclName(fd), sel.Pos(), "a helper reads the wrapped provider of another wrapper under that wrapper's lock")
+							return true
+						}
 						r.Fail("C13-R3-wrapper", tname+"."+provider.Name()+"@"+funcDeclName(fd), sel.Pos(), "the wrapped provider is accessed in %s outside a locked delegation", funcDeclName(fd))
 					}
 				}
@@ -562,6 +605,78 @@ func checkWrapper(r *Run, p *packages.Package, tname, ifaceName, ctorName string
 			r.Fail("C13-R3-wrapper", ctorName+":fresh-mutex", ctor.Pos(), "the constructor does not allocate a fresh mutex")
 		}
 	}
+}
+
+// helperUnwraps: one of the operand helpers type-asserts (or type-switches) its argument to the wrapper type.
+func helperUnwraps(p *packages.Package, helpers []*types.Func, tname string) bool {
+	decls := FuncDecls(p)
+	for _, h := range helpers {
+		fd := decls[h.Name()]
+		if fd == nil || fd.Body == nil {
+			continue
+		}
+		found := false
+		ast.Inspect(fd.Body, func(n ast.Node) bool {
+			var te ast.Expr
+			switch t := n.(type) {
+			case *ast.TypeAssertExpr:
+				te = t.Type
+			case *ast.CaseClause:
+				for _, e := range t.List {
+					if namedName(p.TypesInfo.TypeOf(e)) == tname {
+						found = true
+					}
+				}
+			}
+			if te != nil && namedName(p.TypesInfo.TypeOf(te)) == tname {
+				found = true
+			}
+			return true
+		})
+		if found {
+			return true
+		}
+	}
+	return false
+}
+
+// lockedOnSameBase: in a plain function, `w.provider` is read after `w.lock.Lock()` and `defer w.lock.Unlock()` on
+// the same variable w.
+func lockedOnSameBase(info *types.Info, fd *ast.FuncDecl, sel *ast.SelectorExpr, lock *types.Var) bool {
+	base, ok := ast.Unparen(sel.X).(*ast.Ident)
+	if !ok {
+		return false
+	}
+	locked, deferred := false, false
+	ast.Inspect(fd.Body, func(n ast.Node) bool {
+		check := func(call *ast.CallExpr, name string) bool {
+			fs, ok := call.Fun.(*ast.SelectorExpr)
+			if !ok || fs.Sel.Name != name {
+				return false
+			}
+			ls, ok := ast.Unparen(fs.X).(*ast.SelectorExpr)
+			if !ok {
+				return false
+			}
+			if s := info.Selections[ls]; s == nil || originVar(s.Obj()) != lock {
+				return false
+			}
+			id, ok := ast.Unparen(ls.X).(*ast.Ident)
+			return ok && info.Uses[id] == info.Uses[base] && call.Pos() < sel.Pos()
+		}
+		switch t := n.(type) {
+		case *ast.ExprStmt:
+			if call, ok := t.X.(*ast.CallExpr); ok && check(call, "Lock") {
+				locked = true
+			}
+		case *ast.DeferStmt:
+			if check(t.Call, "Unlock") {
+				deferred = true
+			}
+		}
+		return true
+	})
+	return locked && deferred
 }
 
 // checkValueReceiverWrites (R5): the bitmap providers are small structs passed by value that hold a pointer to the
